@@ -3,7 +3,7 @@ use std::{cell::Cell, fmt, future::Future, future::ready, num::NonZeroU16, rc::R
 use ntex_bytes::{ByteString, Bytes};
 use ntex_util::{channel::pool, future::Either, future::Ready};
 
-use crate::v3::shared::{Ack, AckType, MqttShared};
+use crate::v3::shared::{Ack, AckType, MqttShared, Readiness};
 use crate::v3::{codec, error::SendPacketError};
 use crate::{error::EncodeError, types::QoS};
 
@@ -55,7 +55,16 @@ impl MqttSink {
         } else {
             self.0.wait_readiness().map_or_else(
                 || Either::Left(ready(true)),
-                |rx| Either::Right(async move { rx.await.is_ok() }),
+                |rx| {
+                    let shared = self.0.clone();
+                    let ready = Readiness::new(&shared, Some(rx));
+                    Either::Right(async move {
+                        let result = ready.await;
+                        // readiness does not occupy capacity, let next queued request to proceed
+                        shared.wake_waiter();
+                        result
+                    })
+                },
             )
         }
     }
@@ -239,8 +248,9 @@ impl PublishBuilder {
 
             // handle client receive maximum
             if let Some(rx) = self.shared.wait_readiness() {
+                let ready = Readiness::new(&self.shared, Some(rx));
                 Either::Left(Either::Left(async move {
-                    if rx.await.is_err() {
+                    if !ready.await {
                         return Err(SendPacketError::Disconnected);
                     }
                     self.send_at_least_once_inner(payload).await
@@ -310,8 +320,9 @@ impl PublishBuilder {
 
             // handle client receive maximum
             if let Some(rx) = self.shared.wait_readiness() {
+                let ready = Readiness::new(&self.shared, Some(rx));
                 Either::Left(Either::Left(async move {
-                    if rx.await.is_err() {
+                    if !ready.await {
                         return Err(SendPacketError::Disconnected);
                     }
                     self.send_exactly_once_inner(payload).await
@@ -362,8 +373,9 @@ impl PublishBuilder {
 
             // handle client receive maximum
             let fut = if let Some(rx) = self.shared.wait_readiness() {
+                let ready = Readiness::new(&self.shared, Some(rx));
                 Either::Left(Either::Left(async move {
-                    if rx.await.is_err() {
+                    if !ready.await {
                         return Err(SendPacketError::Disconnected);
                     }
                     self.stream_at_least_once_inner(tx).await
@@ -379,6 +391,11 @@ impl PublishBuilder {
         mut self,
         tx: pool::Sender<()>,
     ) -> Result<(), SendPacketError> {
+        // capacity could be used by other request since this future was created
+        if !Readiness::new(&self.shared, None).await {
+            return Err(SendPacketError::Disconnected);
+        }
+
         // packet id
         let idx = self.shared.set_publish_id(&mut self.packet);
 
@@ -479,9 +496,7 @@ impl SubscribeBuilder {
             Err(SendPacketError::Disconnected)
         } else {
             // handle client receive maximum
-            if let Some(rx) = self.shared.wait_readiness()
-                && rx.await.is_err()
-            {
+            if !Readiness::new(&self.shared, None).await {
                 return Err(SendPacketError::Disconnected);
             }
             let idx = self.id.unwrap_or_else(|| self.shared.next_id());
@@ -564,9 +579,7 @@ impl UnsubscribeBuilder {
             Err(SendPacketError::Disconnected)
         } else {
             // handle client receive maximum
-            if let Some(rx) = shared.wait_readiness()
-                && rx.await.is_err()
-            {
+            if !Readiness::new(&shared, None).await {
                 return Err(SendPacketError::Disconnected);
             }
             // allocate packet id
